@@ -249,6 +249,11 @@ spif_ustr_init_from_fp(spif_ustr_t self, FILE *fp)
             break;
         }
     }
+    if (!end) {
+        /* The last fgets() call failed.  At end of file it stored nothing; after a
+           read error whatever it stored is indeterminate.  Cut it off either way. */
+        *p = 0;
+    }
     self->len = (spif_ustridx_t) ((end)
                           ? (end - self->s)
                           : ((int) strlen((const char *)self->s)));
